@@ -300,11 +300,12 @@ def run_check(prop, tier, seed):
         def verdicts(rs):
             return {r['id']: {a: (st['reached'] > 0, st['violated'] > 0) for a, st in r.get('asserts', {}).items()} for r in rs}
         base = verdicts([byid[j['id']] for j in sample])
-        for label, xflags, xjobs in (('z3-new', ['-solver', 'z3-new'], sample), ('cvc5', ['-solver', 'cvc5'], sample[:12]),
-                                     ('no-merge', ['-nomerge'], [j for j in sample if not j.get('nofallback') and gof[j['id']].get('cost', 1) <= 5][:16])):
+        small = [j for j in sample if not j.get('nofallback') and gof[j['id']].get('cost', 1) <= 5]
+        for label, xflags, xjobs in (('z3-new', ['-solver', 'z3-new'], sample), ('cvc5', ['-solver', 'cvc5'], small[:12]),
+                                     ('no-merge', ['-nomerge'], small[:16])):
             if not xjobs:
                 continue
-            xr, xf = run_engine(work, xjobs, flags + xflags + (['-internal'] if any(gof[j['id']].get('internal') for j in xjobs) else []), timeout=1800, tag='cross_' + label.replace('-', ''))
+            xr, xf = run_engine(work, xjobs, flags + xflags + (['-internal'] if any(gof[j['id']].get('internal') for j in xjobs) else []), timeout=600, tag='cross_' + label.replace('-', ''))
             if xf:
                 cross[label] = dict(jobs=len(xjobs), status='not completed: ' + '; '.join(xf)[:200])
                 continue
